@@ -21,6 +21,9 @@ _BAD = {"P", "Q", "PP"}
 
 
 COMMON_NAMES = ["A", "B", "C", "X", "Y", "Z", "W", "M"]
+# names a user may well give to a node and that collide with conventions inside the library (latent-variable
+# prefix "u_", the "hidden" tag, ...) or differ only in case
+AWKWARD_NAMES = ["u_0", "u_1", "u_2", "u_3", "U_0", "hidden", "L0", "X_1", "x", "y0", "E1", "pi1"]
 
 
 def gen_names(rng: random.Random, n: int, common: bool = False) -> list[str]:
@@ -36,11 +39,29 @@ def gen_names(rng: random.Random, n: int, common: bool = False) -> list[str]:
         return pool[:n] if n <= len(pool) else pool + gen_names(rng, n - len(pool))
     out: list[str] = []
     while len(out) < n:
-        k = rng.choice((1, 1, 2, 2, 3))
-        nm = rng.choice(_LET) + "".join(rng.choice(_TAIL) for _ in range(k - 1))
+        if rng.random() < 0.06:
+            nm = rng.choice(AWKWARD_NAMES)
+        else:
+            k = rng.choice((1, 1, 2, 2, 3))
+            nm = rng.choice(_LET) + "".join(rng.choice(_TAIL) for _ in range(k - 1))
         if nm not in _BAD and nm not in out:
             out.append(nm)
     return out
+
+
+def gen_chain_graph(rng: random.Random, n: int) -> dict[str, Any]:
+    """A long directed chain K0 -> K1 -> ... -> K(n-1) -> X -> Y with a few extra edges (a time-unrolled model):
+    recursion depth, not width, is what such a graph stresses."""
+    names = [f"K{i}" for i in range(n)] + ["X", "Y", "Zz"]
+    D = [[names[i], names[i + 1]] for i in range(n + 1)]
+    B: list[list[str]] = []
+    if rng.random() < 0.5:
+        B.append(["X", "Y"])
+    if rng.random() < 0.5:
+        B.append([f"K{rng.randrange(n)}", "Y"])
+    if rng.random() < 0.3:
+        D.append([f"K{rng.randrange(n // 2)}", "Y"])
+    return {"nodes": names, "D": D, "B": B, "acyclic": True, "order": list(names[:-1]) + ["Zz"], "deep": True}
 
 
 def gen_graph(
@@ -114,6 +135,8 @@ def gen_history(rng: random.Random, g: dict[str, Any]) -> dict[str, Any]:
     covered = {x for e in D for x in e} | {x for e in B for x in e}
     needed = [x for x in nodes if x not in covered]
     h: dict[str, Any] = {"ctor": ctor, "copy": rng.random() < 0.2}
+    if rng.random() < 0.05:
+        h["via"] = "pickle"  # built in another interpreter (another hash seed) and shipped through pickle
     if ctor == "incremental":
         steps: list[list] = [["d", u, v] for u, v in D]
         steps += [["b", *(_perm(rng, [u, v]))] for u, v in B]
@@ -196,8 +219,40 @@ def apply_steps(graph: NxMixedGraph, steps: list[list]) -> None:
             raise ValueError(s)
 
 
+_BUILDER: Any = None
+
+
+def _remote_build(h: dict[str, Any]) -> NxMixedGraph:
+    """Build the graph in another interpreter (other PYTHONHASHSEED) and receive it through pickle -- what a graph
+    handed to a multiprocessing worker or loaded from disk has been through."""
+    global _BUILDER
+    import base64
+    import json
+    import os
+    import pickle
+    import subprocess
+    import sys
+
+    if _BUILDER is None or _BUILDER.poll() is not None:
+        here = os.path.dirname(os.path.abspath(__file__))
+        env = dict(os.environ)
+        mine = int(env.get("PYTHONHASHSEED") or 0) if (env.get("PYTHONHASHSEED") or "0").isdigit() else 0
+        env["PYTHONHASHSEED"] = str((mine * 7 + 13) % (2**32 - 1) + 1)
+        _BUILDER = subprocess.Popen(
+            [sys.executable, os.path.join(here, "worker.py"), json.dumps({"mode": "builder", "out": os.devnull, "hard_timeout": 14400})],
+            env=env, stdin=subprocess.PIPE, stdout=subprocess.PIPE, stderr=subprocess.DEVNULL, text=True)
+    _BUILDER.stdin.write(json.dumps({k: v for k, v in h.items() if k != "via"}) + "\n")
+    _BUILDER.stdin.flush()
+    line = _BUILDER.stdout.readline()
+    if not line:
+        raise RuntimeError("builder interpreter died")
+    return pickle.loads(base64.b64decode(line.strip()))
+
+
 def build_graph(h: dict[str, Any]) -> NxMixedGraph:
     """Realise a history through y0's public constructors."""
+    if h.get("via") == "pickle":
+        return _remote_build(h)
     ctor = h["ctor"]
     if ctor == "incremental":
         g = NxMixedGraph()
